@@ -18,6 +18,11 @@ Print Assumptions C09_checkSafeName.
 Theorem C09_source_checkSafeName_is_model : forall s, gen_checkSafeName s = safe_nameb s.
 Proof. exact gen_checkSafeName_is_model. Qed.
 Print Assumptions C09_source_checkSafeName_is_model.
+(** ... so the four-clause characterisation is a statement about the translated code *)
+Theorem C09_source_checkSafeName : forall s,
+  gen_checkSafeName s = true <-> (s <> ""%string /\ s <> "."%string /\ s <> ".."%string /\ ~ In "/"%char (list_ascii_of_string s)).
+Proof. intros s. rewrite gen_checkSafeName_is_model. exact (safe_nameb_spec s). Qed.
+Print Assumptions C09_source_checkSafeName.
 
 (** from any state whose path tree holds safe names, for every request and every oracle tape:
     every path-component argument of every backend call is safe, and every Walk/WalkGetAttr call
